@@ -506,3 +506,4 @@ def check(facts, rep, tier, cfg):
     import whomay
     whomay.check(facts, rep, "C17.S7", "C17")
     whomay.check_new_statics(facts, rep, "C17.S7", "C17")
+    whomay.check_new_trait_methods(facts, rep, "C17.S7", "C17")
